@@ -363,18 +363,38 @@ func (w *world) runWith(r *hx.Run, c caseT, env []byte, priorEnv []byte) {
 		if c.Plugin == 1 {
 			key += ":with-revocation-only-plugin"
 		}
+		if c.Plugin == 2 {
+			key += ":with-honest-identity-plugin-and-revocation-skipped"
+		}
 		r.Violation(key, fmt.Sprintf("%s | leaf=%s (%v) identities=%q prior=%d", what, c.Subject.Label, c.Subject.RDNs, ids, c.Prior), c)
 	}
 	r.Eval(1)
-	vopts := verifier.VerifierOptions{OCITrustPolicy: vt.OCIDoc(trustpolicy.SignatureVerification{VerificationLevel: "strict"}, []string{"ca:s"}, ids), RevocationCodeSigningValidator: mocks.AllOK()}
+	leafAttrs := c.Subject.attrs()
+	want := c.List.Wild || (c.Subject.interpretable() && subsetMatch(c.List, leafAttrs))
+	sv := trustpolicy.SignatureVerification{VerificationLevel: "strict"}
+	if c.Plugin == 2 {
+		sv.Override = map[trustpolicy.ValidationType]trustpolicy.ValidationAction{trustpolicy.TypeRevocation: trustpolicy.ActionSkip}
+	}
+	vopts := verifier.VerifierOptions{OCITrustPolicy: vt.OCIDoc(sv, []string{"ca:s"}, ids), RevocationCodeSigningValidator: mocks.AllOK()}
 	if c.Plugin == 1 {
 		mgr := mocks.NewManager()
 		mgr.Plugins["p"] = &mocks.VerifyPlugin{Name: "p", Version: "1.0.0", Capabilities: []fw.Capability{fw.CapabilityRevocationCheckVerifier}, ProcessAll: true}
 		vopts.PluginManager = mgr
 	}
+	if c.Plugin == 2 {
+		// an HONEST plugin owns the identity check (it declares revocation first, identity second, and the level skips
+		// revocation): its verdict is the generator's own truth, so the statement's "passes only if" still binds - a
+		// verifier that forgets to ask the plugin passes what nobody checked
+		verdict := "failure"
+		if want {
+			verdict = "success"
+		}
+		mgr := mocks.NewManager()
+		mgr.Plugins["p"] = &mocks.VerifyPlugin{Name: "p", Version: "1.0.0", Capabilities: []fw.Capability{fw.CapabilityRevocationCheckVerifier, fw.CapabilityTrustedIdentityVerifier},
+			Verdicts: map[fw.Capability]string{fw.CapabilityTrustedIdentityVerifier: verdict, fw.CapabilityRevocationCheckVerifier: "success"}, ProcessAll: true}
+		vopts.PluginManager = mgr
+	}
 	v, err := verifier.NewVerifierWithOptions(ts, vopts)
-	leafAttrs := c.Subject.attrs()
-	want := c.List.Wild || (c.Subject.interpretable() && subsetMatch(c.List, leafAttrs))
 	if err != nil {
 		// the policy validator refused the identity list (overlap, missing mandatory attribute): fails closed at construction
 		if c.List.Judged && c.List.Label == "wildcard" {
@@ -507,7 +527,7 @@ func main() {
 		}
 		ch := w.leafFor(c.Subject, 0)
 		rsp := forge.Spec{Format: forge.Formats[c.Format], Chain: ch.X509(), Key: ch.Leaf().Key, Payload: forge.PayloadFor(w.desc), SigningTime: time.Now().Add(-time.Hour)}
-		if c.Plugin == 1 {
+		if c.Plugin != 0 {
 			rsp.Ext = []forge.Attr{{Key: forge.HdrPlugin, Critical: true, Value: "p"}}
 		}
 		env := forge.Build(rsp)
@@ -546,6 +566,7 @@ func main() {
 				w.run(r, caseT{Subject: s, List: l, Format: f}, env)
 				w.runWith(r, caseT{Subject: s, List: l, Format: f, Prior: 1}, env, priorEnvs[f])
 				w.run(r, caseT{Subject: s, List: l, Format: f, Plugin: 1}, envPlug)
+				w.run(r, caseT{Subject: s, List: l, Format: f, Plugin: 2}, envPlug)
 			}
 		}
 		if i%17 == 0 {
